@@ -20,6 +20,43 @@ package msg
 //@   invariant [inflight] forall s uint16 :: { dom(this.totalInFlightTopicsBySender, s) } s in this.totalInFlightTopicsBySender ==>
 //@                          this.totalInFlightTopicsBySender[s] != nil
 //@
+//@ monitor (*storedMessages).lock
+//@   guards messages, messageCountPerSender, lastUsed
+//@   invariant [non-nil] forall i int :: 0 <= i && i < len(this.messages) ==> this.messages[i] != nil
+//@
+//@ func (*Box).initialize
+//@   props C10 C14 C15
+//@   modifies b.pendingMessages, b.startedSending, b.totalInFlightTopicsBySender, b.stopClock
+//@   ensures  b.pendingMessages != nil && b.startedSending != nil && b.totalInFlightTopicsBySender != nil && b.stopClock != nil
+//@   ensures [stable] (b.pendingMessages == old(b.pendingMessages) || fresh(b.pendingMessages)) &&
+//@                    (b.startedSending == old(b.startedSending) || fresh(b.startedSending)) &&
+//@                    (b.totalInFlightTopicsBySender == old(b.totalInFlightTopicsBySender) || fresh(b.totalInFlightTopicsBySender))
+//@
+//@ func (*Box).hasStartedSending
+//@   props C10 C14 C15
+//@   modifies b.pendingMessages, b.startedSending, b.totalInFlightTopicsBySender, b.stopClock, guarded(b.lock)
+//@   ensures  b.pendingMessages != nil && b.startedSending != nil && b.totalInFlightTopicsBySender != nil
+//@
+//@ func (*Box).markTopicForSender
+//@   props C10 C14 C15
+//@   requires msg != nil && b.totalInFlightTopicsBySender != nil
+//@   modifies guarded(b.lock)
+//@
+//@ func (*Box).getOrCreateMessagesByTopic
+//@   props C10 C14 C15
+//@   modifies b.pendingMessages, b.startedSending, b.totalInFlightTopicsBySender, b.stopClock, guarded(b.lock)
+//@   ensures  result != nil && result.messageCountPerSender != nil && result.logger != nil
+//@   ensures  b.pendingMessages != nil && b.startedSending != nil && b.totalInFlightTopicsBySender != nil
+//@
+//@ func (*storedMessages).add
+//@   props C10 C14 C15
+//@   requires msg != nil && sm.logger != nil && sm.messageCountPerSender != nil
+//@   modifies guarded(sm.lock)
+//@
+//@ func (*Box).storeOrForward
+//@   props C10 C14 C15
+//@   requires msg != nil
+//@
 //@ func (*Box).HandleMessage
 //@   props C10 C14 C15
 //@   requires msg != nil
